@@ -1,4 +1,5 @@
 import Acra.Model.iNET
+import Acra.Lemmas.ReviewC08Records
 namespace Acra.Props.C08
 open Acra.Py Acra.Model.iNET Acra.Gen.iNET
 
@@ -60,6 +61,25 @@ theorem decPkg_progress : Progress decPkg where
     intro x n h
     simp [decPkg, Pkg.unpack, structUnpackFrom, PKG_FORMAT, Fmt.size, codesSize, Code.size] at h
 
+/-- [review] the per-iteration bound, stated for the loop step: an accepted package advances the offset by
+    its declared length (≥ 12, the check added for D10) rounded up to a multiple of 4 -/
+theorem decPkg_advance_ge (b : Bytes) (p : Pkg) (n : Nat) (h : decPkg b = .ok (p, n)) :
+    12 ≤ n ∧ n % 4 = 0 ∧ p.length ≤ n ∧ n < p.length + 4 ∧ 12 ≤ b.length := by
+  simp only [decPkg] at h
+  split at h
+  · rename_i p' r hp
+    simp only [Except.ok.injEq, Prod.mk.injEq] at h
+    have := iNETPackage_accepted_length Pkg.fresh b r (by rw [hp])
+    rw [hp] at this
+    obtain ⟨h1, h2⟩ := h
+    subst h1
+    simp only at this
+    subst h2
+    by_cases hm : p'.length % 4 = 0
+    · simp [hm]; omega
+    · simp [hm]; omega
+  · simp at h
+
 /-- `iNET.unpack` terminates on every buffer: the fuel the model gives the package loop is never exhausted -/
 theorem iNET_unpack_total (t : State) (buf : Bytes) : (unpack t buf).2 ≠ .error .fuel := by
   simp only [unpack]
@@ -109,4 +129,36 @@ theorem iNET_items_le (t : State) (buf : Bytes) (h : (unpack t buf).2 = .ok ()) 
     · simp
     · simp
 
+/-- [review] witness: iNET packet, two application fields, packages of 17 (+3 pad) and 12 bytes -/
+def wINET : Bytes :=
+  [18, 3, 0, 0, 0, 0, 0, 0, 0, 0, 0, 0, 0, 0, 0, 64, 0, 0, 0, 0, 0, 0, 0, 0,  0, 0, 0, 1, 0, 0, 0, 2,
+   0, 0, 0, 7, 0, 17, 0, 0, 0, 0, 0, 0, 1, 2, 3, 4, 5, 0, 0, 0,  0, 0, 0, 0, 0, 12, 0, 0, 0, 0, 0, 0]
+example : (unpack fresh wINET).2 = .ok () ∧ (unpack fresh wINET).1.packages.length = 2 := ⟨by rfl, by rfl⟩
+example : (Pkg.unpack Pkg.fresh (wINET.drop 32)).2 = .ok (wINET.drop 52) ∧ (Pkg.unpack Pkg.fresh (wINET.drop 32)).1.length = 17 := ⟨by rfl, by rfl⟩
+example : decPkg (wINET.drop 32) = .ok ({ Pkg.fresh with definitionID := 7, length := 17, payload := [1, 2, 3, 4, 5] }, 20) := by rfl
+example : decPkg [0, 0, 0, 7, 0, 0, 0, 0, 0, 0, 0, 0] = .error .value := by rfl
+
+/-- [review] work bound with the real stride: at most ⌈(|buf| − 24)/12⌉ packages -/
+theorem iNET_items_stride (t : State) (buf : Bytes) (h : (unpack t buf).2 = .ok ()) :
+    (unpack t buf).1.packages.length * 12 ≤ (buf.length - 24) + 11 := by
+  revert h
+  simp only [unpack]
+  split
+  · simp
+  · split
+    · split
+      · simp
+      · rename_i af haf
+        generalize hp : List.drop (INET_HEADER_LENGTH + _) buf = pl
+        have hpl : pl.length ≤ buf.length - 24 := by rw [← hp]; simp only [List.length_drop, INET_HEADER_LENGTH]; omega
+        cases hd : decOff decPkg moreRem pl (pl.length + 1) 0 with
+        | error e => simp
+        | ok pk =>
+          simp only
+          intro _
+          have := Acra.Lemmas.ReviewC08.decOff_items_stride decPkg moreRem pl decPkg_progress 12
+            (fun b x n hb => (decPkg_advance_ge b x n hb).1) _ 0 pk hd
+          omega
+    · simp
+    · simp
 end Acra.Props.C08
